@@ -1319,6 +1319,37 @@ def c03_no_physical_removal(env, ob):
     return agg
 
 
+RAW_READERS = r"(get_tuple_at_unchecked|Tuple::from_slice_unchecked|TupleRef::<.*>::to_row_with|Tuple::as_tuple_ref_with|TupleReader::parse_unchecked|with_cell_at)"
+
+
+@obligation(id="C03.row_sources_read_through_snapshot", also="C04,C06", funcs="DdlExecutor::populate_index,SeqScan::next,IndexScan::next",
+            bounds="every path of the three row sources (loops unrolled once, longer iterations repeat the same body); "
+                   "Btree::get_row_at itself is covered by the visibility obligations",
+            native="c03_index_built_after_rollback")
+def c03_row_sources(env, ob):
+    """Rollback (and snapshot isolation) is purely a visibility decision, so every place that turns stored tuples into rows
+    for a statement - table scan, index scan, and the heap scan that fills a new index - must obtain them through the
+    snapshot-aware reader (Btree::get_row_at) and never through a raw reader."""
+    agg = None
+    for file_hint, fn, sig in (("runtime/ddl.rs", "populate_index", r"DdlExecutor"),
+                               ("runtime/ops/seq_scan.rs", "next", None),
+                               ("runtime/ops/index_scan.rs", "next", None)):
+        ctx, f, args, res = explore(env, file_hint, fn, sig=sig, loop_bound=1)
+
+        def bad(path, rv, fn=fn, file_hint=file_hint):
+            if path.panics or rv is None:
+                return None
+            raw = [e for e in path.events if re.search(RAW_READERS, e["callee"])]
+            if raw:
+                return (f"row_source_reads_raw_tuple@{file_hint}::{fn}", None)
+            # (the entry loop and the heap loop are independent for the abstraction, so the law is stated on Row::new)
+            if fn == "populate_index" and idx(path, r"Row::new$") and not idx(path, r"get_row_at$"):
+                return (f"index_entry_not_derived_from_a_snapshot_read@{fn}", None)
+            return None
+        agg = merge(agg, trace_obligation(env, ob, ctx, res, bad, "a row source bypasses the snapshot-aware reader", cuts_ok=True))
+    return agg
+
+
 # ---------------------------------------------------------------------------------------------------------------------
 # C13: VACUUM's removal decision
 # ---------------------------------------------------------------------------------------------------------------------
